@@ -168,6 +168,9 @@ theorem tickCb_fix (c : Cfg) (cb) (ht : terminal c.st.label = true) : Fix c (tic
     split
     · exact Fix.trans h1 (awaitableDone_fix _ _ ht)
     · exact Fix.trans h1 (Fix.trans (kill_fix _ ht) ⟨rfl, rfl⟩)
+    · split
+      · exact Fix.trans h1 (fail_fix _ _ ht)
+      · exact h1
   · exact Fix.rfl' c
 
 /-- **C01 (model level), second half — terminal states are final**: once FINISHED, EXCEPTED or KILLED has
@@ -185,6 +188,7 @@ theorem step_terminal_fix (P : Prog) (c : Cfg) (ev : Ev) (ht : terminal c.st.lab
   · exact fail_fix c _ ht
   · exact cancelFut_fix c
   · exact complete_fix c _ _
+  · exact ⟨rfl, rfl⟩
 
 theorem C01_terminal_final (P : Prog) (c : Cfg) (evs : List Ev) (ht : terminal c.st.label = true) :
     (run P c evs).st = c.st ∧ (run P c evs).entered = c.entered := by
@@ -197,9 +201,7 @@ theorem C01_terminal_final (P : Prog) (c : Cfg) (evs : List Ev) (ht : terminal c
 
 -- non-vacuity: a concrete history reaches a terminal state, and the statement applies to it
 def sync2 : Prog := fun fn _ _ _ => if fn = 0 then ⟨0, .ret (.cont 1 [1] [(0, 2)])⟩ else ⟨0, .ret (.stop (some 3) true)⟩
-example : terminal (run sync2 {} [.tick]).st.label = true := by decide +kernel
+example : terminal (run sync2 (init 0) [.tick]).st.label = true := by decide +kernel
 
 end PMF
 
-#print axioms PMF.C01_terminal_final
-#print axioms PMF.C01_edges_legal
